@@ -272,7 +272,13 @@ const _: (/* conversions */) = {
     }
     
     impl From<base::Node> for Node {
-        fn from(mut base: base::Node) -> Self {
+        fn from(base: base::Node) -> Self {
+            Node::from_base(base, None)
+        }
+    }
+
+    impl Node {
+        fn from_base(mut base: base::Node, parent_fangses: Option<&base::FangsList>) -> Self {
             /* skip compression on edge runtimes */
             #[cfg(feature="__rt_native__")]
             /* compress: merge single-child static pattern and compress routing tree */
@@ -280,6 +286,14 @@ const _: (/* conversions */) = {
                && base.handler.is_none()
                && base.pattern.as_ref().is_none_or(|p| p.is_static())
                && base.children[0].pattern.as_ref().unwrap(/* not root */).is_static()
+               /*
+                    never compress across the boundary of a mounted Ohkami:
+                    the merged node would apply the inner Ohkami's fangs outside of
+                    its mount point (and in wrong order), and not-found requests under
+                    the mount point would fall to a node without the inner fangs
+               */
+               && base.fangses.is_same_as(&base.children[0].fangses)
+               && parent_fangses.is_none_or(|p| p.is_same_as(&base.fangses))
             {
                 let child = base.children.pop().unwrap(/* base.children.len() == 1 */);
                 base.children = child.children;
@@ -303,6 +317,8 @@ const _: (/* conversions */) = {
 
             #[cfg(feature="openapi")] let has_handler = base.handler.is_some();
 
+            let fangses = base.fangses.clone();
+
             let proc = base.fangses.clone().into_proc_with(base.handler.unwrap_or(Handler::default_not_found()));
             #[cfg(feature="openapi")] let (proc, openapi_operation) = (proc.0, has_handler.then_some(proc.1));
 
@@ -311,7 +327,7 @@ const _: (/* conversions */) = {
 
             Node {
                 pattern:  base.pattern.map(Pattern::from).unwrap_or(Pattern::Static(b"")),
-                children: base.children.into_iter().map(Node::from).collect::<Vec<_>>().leak(),
+                children: base.children.into_iter().map(|c| Node::from_base(c, Some(&fangses))).collect::<Vec<_>>().leak(),
 
                 proc,
                 catch,
